@@ -187,7 +187,8 @@ def _params(rng, thorough):
     for c, r in itertools.product(cs, radii):
         add("icosahedron", {"c": c, "r": r}, "centre_off_origin" if any(c) else "")
     for N, caps, r in itertools.product(res, (0, 1), radii):
-        A, B = rng.choice([([0, 0, 0], [0, 0, 2]), ([1, 2, 3], [1, 2, 7]), ([0, 0, 0], [3, 0, 0]), ([1, 0, 0], [1, 4, 3])])
+        A, B = rng.choice([([0, 0, 0], [0, 0, 2]), ([1, 2, 3], [1, 2, 7]), ([0, 0, 0], [3, 0, 0]), ([1, 0, 0], [1, 4, 3]),
+                           ([0, 0, 0], [1, 1, 5]), ([2, 0, 1], [1, 0, -6]), ([0, 0, 0], [0, 1, 9])])      # the last three: nearly, not exactly, vertical
         add("cylinder", {"A": A, "B": B, "N": N, "caps": caps, "r": r, "want_m": sq(r)}, "caps" if caps else "open")
     for M_, m_, tri in itertools.product(res, res, (0, 1)):
         R, r = rng.choice([([1, 1], [1, 4]), ([2, 1], [1, 2]), ([3, 1], [1, 1])])
